@@ -4,6 +4,7 @@
 package main
 
 import (
+	"context"
 	"encoding/hex"
 	"flag"
 	"fmt"
@@ -200,7 +201,280 @@ func (d *drv) mibOf(h int) uint64 {
 	return uint64((h-1)/2)*8 + uint64(1+d.rng.Intn(7))
 }
 
+// ------------------------------------------------------------------ start-up index scenarios (KeeperIndex.tla)
+
+type crafted struct {
+	z      pocutil.PoCValue
+	x, xp  pocutil.PoCValue
+	chall  pocutil.Hash
+}
+
+var craftCache = map[string]*crafted{}
+
+// craft finds one genuine proof (x, x') of bit length bl for public key pk: P(x) = ~P(x'), stored at z = F(x, x'),
+// and a challenge whose low bits are z
+func craft(pk *pocec.PublicKey, bl int) *crafted {
+	key := fmt.Sprintf("%x/%d", pk.SerializeCompressed(), bl)
+	if c, ok := craftCache[key]; ok {
+		return c
+	}
+	pkh := pocutil.PubKeyHash(pk)
+	seen := map[pocutil.PoCValue]pocutil.PoCValue{}
+	var c *crafted
+	for x := pocutil.PoCValue(1); x < 1<<uint(bl); x++ {
+		y := pocutil.P(x, bl, pkh)
+		if o, ok := seen[pocutil.FlipValue(y, bl)]; ok {
+			z := pocutil.F(o, x, bl, pkh)
+			var ch pocutil.Hash
+			for i := 0; i < 8; i++ {
+				ch[i] = byte(uint64(z) >> (8 * uint(i)))
+			}
+			ch[31] = 0x5a
+			c = &crafted{z: z, x: o, xp: x, chall: ch}
+			break
+		}
+		seen[y] = x
+	}
+	craftCache[key] = c
+	return c
+}
+
+func keyBytes(pk *pocec.PublicKey) string { return hex.EncodeToString(pk.SerializeCompressed()) }
+
+// materialise writes the plot files an abstract file stands for and returns the names it wrote
+func (d *drv) materialise(f map[string]interface{}, keys map[string]*pocec.PrivateKey) error {
+	key := keys[f["key"].(string)]
+	pk := key.PubKey()
+	bl := int(f["bl"].(float64))
+	dir := d.dirs[f["d"].(string)]
+	ord := map[string]int{"k0": 0, "k1": 1, "k2": 2, "kf": 5}[f["key"].(string)]
+	if ok, _ := f["ordOK"].(bool); !ok {
+		ord += 3
+	}
+	// the header key / bit length
+	hk, hbl := pk, bl
+	switch f["hdr"] {
+	case "otherOwnedKey":
+		hk = keys[map[string]string{"k0": "k1", "k1": "k2", "k2": "k0", "kf": "k0"}[f["key"].(string)]].PubKey()
+	case "foreignKey":
+		hk = keys["kf2"].PubKey()
+	case "otherBL":
+		hbl = 50 - bl
+	}
+	// build a genuine pair for the header key in a scratch directory, then move it under the wanted name
+	tmp := filepath.Join(dir, fmt.Sprintf(".build-%d", d.rng.Intn(1<<30)))
+	os.MkdirAll(tmp, 0o755)
+	defer os.RemoveAll(tmp)
+	if _, err := massdb_v1.CreateDB(tmp, int64(ord), hk, hbl); err != nil {
+		return err
+	}
+	hexk := keyBytes(hk)
+	srcA := filepath.Join(tmp, fmt.Sprintf("%d_%s_%d_a.massdb", ord, hexk, hbl))
+	srcB := filepath.Join(tmp, fmt.Sprintf("%d_%s_%d.massdb", ord, hexk, hbl))
+	patch := func(path string, off int64, b []byte) {
+		if fh, err := os.OpenFile(path, os.O_RDWR, 0o644); err == nil {
+			fh.WriteAt(b, off)
+			fh.Close()
+		}
+	}
+	plotted, _ := f["plotted"].(bool)
+	if plotted {
+		// one genuine record and a final checkpoint
+		if c := craft(hk, hbl); c != nil {
+			rs := pocutil.RecordSize(hbl)
+			patch(srcB, 4096+int64(c.z)*int64(rs)*2, append(pocutil.PoCValue2Bytes(c.x, hbl), pocutil.PoCValue2Bytes(c.xp, hbl)...))
+		}
+		var ck [8]byte
+		v := uint64(1) << uint(hbl-1)
+		for i := 0; i < 8; i++ {
+			ck[i] = byte(v >> (8 * uint(i)))
+		}
+		patch(srcB, 42, ck[:])
+	}
+	switch f["hdr"] {
+	case "badCode":
+		patch(srcB, 0, []byte{0xde, 0xad})
+	case "badVersion":
+		patch(srcB, 32, []byte{9})
+	case "shortHeader":
+		os.Truncate(srcB, 1000+int64(d.rng.Intn(3000)))
+	case "typeA":
+		patch(srcB, 41, []byte{1}) // MapTypeHashMapA
+	case "badPkHash":
+		patch(srcB, 50, []byte{0xff, 0xee, 0xdd})
+	}
+	nameKey := keyBytes(pk)
+	legacy, _ := f["legacy"].(bool)
+	var dstA, dstB string
+	if legacy {
+		// legacy format <key>-<bl>-A|B.massdb (lower-case hex, as hex.EncodeToString writes it)
+		dstA = filepath.Join(dir, fmt.Sprintf("%s-%d-A.massdb", nameKey, bl))
+		dstB = filepath.Join(dir, fmt.Sprintf("%s-%d-B.massdb", nameKey, bl))
+	} else {
+		dstA = filepath.Join(dir, fmt.Sprintf("%d_%s_%d_a.massdb", ord, nameKey, bl))
+		dstB = filepath.Join(dir, fmt.Sprintf("%d_%s_%d.massdb", ord, nameKey, bl))
+	}
+	if err := os.Rename(srcB, dstB); err != nil {
+		return err
+	}
+	if hasA, _ := f["hasA"].(bool); hasA {
+		os.Rename(srcA, dstA)
+	}
+	return nil
+}
+
+type fstat struct {
+	size int64
+	head string
+}
+
+func listing(dirs map[string]string) map[string]fstat {
+	out := map[string]fstat{}
+	for n, p := range dirs {
+		fis, _ := ioutil.ReadDir(p)
+		for _, fi := range fis {
+			if fi.IsDir() {
+				continue
+			}
+			b := make([]byte, 4096)
+			fh, err := os.Open(filepath.Join(p, fi.Name()))
+			k := 0
+			if err == nil {
+				k, _ = fh.Read(b)
+				fh.Close()
+			}
+			out[n+"/"+strings.ToLower(fi.Name())] = fstat{fi.Size(), hex.EncodeToString(b[:k])}
+		}
+	}
+	return out
+}
+
+func runIndex(sc vh.Scenario, dir string, rec *vh.Rec) {
+	rng := vh.Rng(sc.Seed)
+	d := &drv{dirs: map[string]string{}, names: map[string]string{}, wal: &fakeWallet{rng: rng}, rng: rng}
+	for _, n := range []string{"d1", "d2"} {
+		p, _ := filepath.Abs(filepath.Join(dir, n))
+		os.MkdirAll(p, 0o755)
+		d.dirs[n], d.names[p] = p, n
+	}
+	keys := map[string]*pocec.PrivateKey{}
+	for _, k := range []string{"k0", "k1", "k2"} {
+		d.wal.GenerateNewPublicKey()
+		keys[k] = d.wal.keys[len(d.wal.keys)-1]
+	}
+	for _, k := range []string{"kf", "kf2"} {
+		b := make([]byte, 32)
+		rng.Read(b)
+		keys[k], _ = pocec.PrivKeyFromBytes(pocec.S256(), b)
+	}
+	files := []interface{}{}
+	for _, st := range sc.Steps {
+		files = append(files, map[string]interface{}(st))
+	}
+	ev := vh.Event{"a": "Index", "files": files}
+	rec.Begin(ev)
+	for _, f := range files {
+		if err := d.materialise(f.(map[string]interface{}), keys); err != nil {
+			rec.Dead, rec.Note = true, "materialise: "+err.Error()
+			return
+		}
+	}
+	before := listing(d.dirs)
+	if err := d.newKeeper(); err != nil {
+		ev["res"] = "err"
+		ev["err"] = err.Error()
+		rec.Emit(ev)
+		return
+	}
+	ev["res"] = "ok"
+	// legacy names are renamed to the current format: compare by (dir, lower-case name) after mapping legacy names
+	after := listing(d.dirs)
+	lost, altered := []string{}, []string{}
+	legacyRe := regexp.MustCompile(`^(d\d)/([0-9a-f]{66})-(\d{2})-([ab])\.massdb$`)
+	for n, st := range before {
+		cur, ok := after[n]
+		if !ok {
+			if m := legacyRe.FindStringSubmatch(n); m != nil {
+				// renamed: <ordinal>_<key>_<bl>[_a].massdb in the same directory
+				found := false
+				for n2, st2 := range after {
+					if strings.HasPrefix(n2, m[1]+"/") && strings.Contains(n2, "_"+m[2]+"_"+m[3]) && (strings.HasSuffix(n2, "_a.massdb") == (m[4] == "a")) {
+						if _, was := before[n2]; !was || true {
+							if st2.size == st.size && st2.head == st.head {
+								found = true
+							}
+						}
+					}
+				}
+				if found {
+					continue
+				}
+			}
+			lost = append(lost, n)
+			continue
+		}
+		if cur != st {
+			altered = append(altered, n)
+		}
+	}
+	sort.Strings(lost)
+	sort.Strings(altered)
+	ev["lost"], ev["altered"] = lost, altered
+	// what was indexed
+	snap := capacity.VerifSnap(d.sk, false)
+	// configure every indexed space and start the keeper so that proofs can be asked for
+	d.sk.ConfigureByFlags(engine.SFAll, false, false)
+	infos, _ := d.sk.WorkSpaceInfos(engine.SFAll)
+	indexed := []map[string]interface{}{}
+	nameOf := func(pk *pocec.PublicKey) string {
+		for n, k := range keys {
+			if k.PubKey().IsEqual(pk) {
+				return n
+			}
+		}
+		return "?"
+	}
+	for _, in := range infos {
+		indexed = append(indexed, map[string]interface{}{"key": nameOf(in.PublicKey), "bl": in.BitLength, "state": in.State.String(), "ordinal": int(in.Ordinal)})
+	}
+	if len(infos) != len(snap.InAll) {
+		ev["res"] = fmt.Sprintf("index has %d entries, %d listed", len(snap.InAll), len(infos))
+	}
+	sort.Slice(indexed, func(i, j int) bool {
+		return fmt.Sprint(indexed[i]["key"], indexed[i]["bl"]) < fmt.Sprint(indexed[j]["key"], indexed[j]["bl"])
+	})
+	ev["indexed"] = indexed
+	served := []map[string]interface{}{}
+	servedValid := true
+	d.sk.ActOnWorkSpaces(engine.SFReady, engine.Mine)
+	if err := d.sk.Start(); err == nil {
+		for _, in := range infos {
+			// ask with the challenge crafted for every key that may have written this file
+			for kn, k := range keys {
+				c := craft(k.PubKey(), in.BitLength)
+				if c == nil {
+					continue
+				}
+				wp, err := d.sk.GetProof(context.Background(), in.SpaceID, c.chall, false)
+				if err == nil && wp != nil && wp.Error == nil && wp.Proof != nil {
+					served = append(served, map[string]interface{}{"key": nameOf(in.PublicKey), "bl": in.BitLength, "craftedFor": kn})
+					if poc.VerifyProof(wp.Proof, pocutil.PubKeyHash(in.PublicKey), c.chall, false) != nil {
+						servedValid = false
+					}
+				}
+			}
+		}
+		d.sk.Stop()
+	}
+	ev["served"], ev["servedvalid"] = served, servedValid
+	rec.Emit(ev)
+}
+
 func run(sc vh.Scenario, dir string, rec *vh.Rec) {
+	if k, _ := sc.Opt["kind"].(string); k == "index" {
+		runIndex(sc, dir, rec)
+		return
+	}
 	rng := vh.Rng(sc.Seed)
 	d := &drv{dirs: map[string]string{}, names: map[string]string{}, wal: &fakeWallet{rng: rng}, rng: rng}
 	for _, n := range []string{"d1", "d2"} {
